@@ -52,6 +52,7 @@ type ruCfg struct {
 	FkeyWhite     []string `json:"fkey_white"`
 	FkeyBlack     []string `json:"fkey_black"`
 	KeyFile       bool     `json:"key_file"`
+	BlankAt       []int    `json:"blank_at"` // key file: an empty line (the name of a key that does not exist) before the line with this index
 	TargetVersion string   `json:"target_version"`
 }
 
@@ -194,10 +195,17 @@ func ruRun(in []byte) (interface{}, error) {
 			if err != nil {
 				return nil, err
 			}
+			line := 0
 			for _, d := range c.Dbs {
 				for _, pg := range d.Pages {
 					for _, id := range pg {
+						for _, b := range c.Cfg.BlankAt {
+							if b == line {
+								fmt.Fprintln(f, "")
+							}
+						}
 						fmt.Fprintln(f, byId[id].Name)
+						line++
 					}
 				}
 			}
